@@ -148,7 +148,7 @@ func main() {
 	}
 
 	// ---- merge -----------------------------------------------------------------------
-	conclusive, overlapCases, multi := 0, 0, 0
+	conclusive, overlapCases, multi, nSamples := 0, 0, 0, 0
 	combos := map[string]bool{}
 	for i, r := range results {
 		sc := &scs[i]
@@ -184,6 +184,7 @@ func main() {
 			}
 		}
 		for _, f := range v.Findings {
+			rep.Seen("violations_by_build", f.Sig+" @"+sc.Build)
 			rep.Violation(f.Sig, f.What, map[string]any{"scenario": sc, "findings": v.Findings, "events": r.out.Events, "build": sc.Build})
 		}
 		// coverage
@@ -228,6 +229,16 @@ func main() {
 			rep.Distinct(sc.signature())
 			if len(v.Findings) == 0 {
 				rep.Sample(sampleOf(sc, r.out, v))
+				nSamples++
+			}
+		}
+	}
+	if nSamples == 0 {
+		// every overlapping case had a finding (e.g. a replay): still show what was run
+		for i, r := range results {
+			if r != nil && r.v != nil {
+				rep.Sample(sampleOf(&scs[i], r.out, r.v))
+				break
 			}
 		}
 	}
